@@ -41,4 +41,36 @@ theorem C20_truncation_counterexample : markerIdx 29 50 28 [40] = [12] ∧ marke
 (`reset_indices=False`) and hands the normalised signal, the rate and the window to its panels. -/
 theorem C20_routing : ∀ r ∈ Routing.plots, Routing.holds Slots.routes r = true := by decide +kernel
 
+/-- the PARAMETER PANEL (interp): a point is drawn exactly for the cycles lying entirely inside the view - side extrema from the first sample of the view up to, but not
+on, its end - and it sits at the cycle's CENTRE extremum with the cycle's value of the parameter. -/
+theorem C20_panel (lo : Int) (len : Nat) (stopIncl : Int) (cycles : List PanelCycle) (p : Int × Option Rat) :
+    p ∈ panelPoints true (panelCycles lo len stopIncl cycles) ↔
+      ∃ c ∈ cycles, (lo ≤ c.last ∧ c.next ≤ stopIncl ∧ c.next < lo + len) ∧ p = (c.centre, c.value) := by
+  simp only [panelPoints, if_true, panelCycles, List.mem_map, List.mem_filter, Bool.and_eq_true, decide_eq_true_eq]
+  constructor
+  · rintro ⟨c, ⟨hc, ⟨⟨⟨h1, h2⟩, _⟩, h4⟩⟩, rfl⟩
+    exact ⟨c, hc, ⟨h1, h2, by omega⟩, rfl⟩
+  · rintro ⟨c, hc, ⟨h1, h2, h3⟩, rfl⟩
+    exact ⟨c, ⟨hc, ⟨⟨⟨h1, h2⟩, by omega⟩, by omega⟩⟩, rfl⟩
+
+/-- ... without interpolation every drawn cycle contributes its two side extrema with the same value, and the shaded spans are exactly the drawn cycles whose value is at or
+below the threshold. -/
+theorem C20_panel_steps (lo : Int) (len : Nat) (stopIncl : Int) (cycles : List PanelCycle) (thresh : Rat) :
+    panelPoints false (panelCycles lo len stopIncl cycles) = (panelCycles lo len stopIncl cycles).flatMap (fun c => [(c.last, c.value), (c.next, c.value)]) ∧
+    ∀ s, s ∈ panelSpans thresh (panelCycles lo len stopIncl cycles) ↔
+      ∃ c ∈ panelCycles lo len stopIncl cycles, (∃ v, c.value = some v ∧ v ≤ thresh) ∧ s = (c.last, c.next) := by
+  refine ⟨by simp [panelPoints], fun s => ?_⟩
+  simp only [panelSpans, List.mem_map, List.mem_filter]
+  constructor
+  · rintro ⟨c, ⟨hc, hv⟩, rfl⟩
+    refine ⟨c, hc, ?_, rfl⟩
+    cases hval : c.value with
+    | none => simp [hval] at hv
+    | some v => exact ⟨v, rfl, by simpa [hval] using hv⟩
+  · rintro ⟨c, hc, ⟨v, hv, hle⟩, rfl⟩
+    exact ⟨c, ⟨hc, by simp [hv, hle]⟩, rfl⟩
+
+example : panelPoints true (panelCycles 10 20 30 [⟨5, 8, 12, some 1⟩, ⟨12, 15, 19, some (1/2)⟩, ⟨19, 24, 30, none⟩]) = [(15, some (1/2))] ∧
+    panelSpans (3/5) (panelCycles 10 20 30 [⟨12, 15, 19, some (1/2)⟩, ⟨19, 22, 26, some 1⟩]) = [(12, 19)] := by decide +kernel
+
 end Bycycle
